@@ -369,11 +369,11 @@ impl AST {
                                 placeholders += 1;
                             }
                         }
-                        if placeholders > elems.len() {
+                        if placeholders != elems.len() {
                             ops.push(
                                 Op::Val(Primitive::Str(
                                     format!(
-                                        "Format string has {} placeholders but only {} arguments",
+                                        "Format string has {} placeholders but {} arguments",
                                         placeholders,
                                         elems.len()
                                     )
